@@ -251,6 +251,10 @@ let run (toks : string list) : string =
           (* two writers of the same value: one change per characteristic and round, one event each (C10_at_most_once per change) *)
           emit (if alive a && alive b && alive c then Printf.sprintf "DUPW=ok/%s" n else "DUPW=noconn")
         | ["CHURN"; _] -> emit "CHURN=ok"
+        | ["HSPLIT"; c; _] ->
+          (* two requests with a step no handler has a name for, however the first one's header is cut into segments: both answered *)
+          if not (alive c) then emit "HSPLIT=noconn" else begin
+            ignore (req c (Hap.EPairSetup Hap.PSBadStep)); ignore (req c (Hap.EPairSetup Hap.PSBadStep)); emit "HSPLIT=answered" end
         | ["RSC"; n] -> emit (Printf.sprintf "RSC=ok/%s" n)      (* connections are independent objects in the model *)
         | ["STALL"; c; _; _; _] -> emit (if alive c then "STALL=ok" else "STALL=noconn")
         | ["SRPMANY"; _n] -> emit "SRPMANY=ok"     (* C04_srp_completes: whatever the accessory's secret b *)
